@@ -579,7 +579,7 @@ func c07Method(s *Svc, m *spec.Method, r *MethodResult, count bool) []c07Finding
 				g, ok := gotBy[e.key()]
 				switch {
 				case !ok:
-					add(fmt.Sprintf("C07 param-missing-in-doc doc=%s loc=%s req=%s type=%s", dv.name, e.In, p.Req, typeClass(sp, p.T)),
+					add(fmt.Sprintf("C07 param-missing-in-doc doc=%s loc=%s req=%s", dv.name, e.In, p.Req),
 						fmt.Sprintf("%s %s: the design carries attribute %q in %s %q but the document has no such parameter", o.Verb, o.Path, p.Attr, e.In, e.Name))
 				case g.Required != e.Required:
 					add(fmt.Sprintf("C07 param-required-mismatch doc=%s loc=%s req=%s documented=%v", dv.name, e.In, p.Req, g.Required),
